@@ -265,7 +265,10 @@ fn step(s: &dyn ShapeDyn, d: &Desc, img: &[u8], pop: &PathOp) -> StepResult {
                         (Value::Str(a), Value::Str(b)) => ord == Some(a.cmp(b)),
                         _ => true,
                     };
-                    if eq != model_eq || (ord == Some(std::cmp::Ordering::Equal)) != model_eq || !sym_ok || !str_ok {
+                    // equal contents: `==` true and the ordering Equal or undefined (vectors of portable floats
+                    // compare equal byte-wise even for NaN, whose ordering is None); different: neither
+                    let ord_ok = if model_eq { matches!(ord, Some(std::cmp::Ordering::Equal) | None) } else { ord != Some(std::cmp::Ordering::Equal) };
+                    if eq != model_eq || !ord_ok || !sym_ok || !str_ok {
                         res.viol.push(("C11", format!("equality/{}", name), format!("`==` gives {} and partial_cmp {:?} between {:?} and {:?}", eq, ord, obs.value.0, pre_value)));
                     }
                 }
